@@ -89,12 +89,31 @@ func regFamily(raw json.RawMessage) Result {
 			}
 		case "load":
 			var files []treeFile
-			for _, t := range []string{c.T1, c.T2} {
-				for _, n := range []string{"f", "g", "upper", "len", "abs", "floor", "binary"} {
-					files = append(files, treeFile{Name: fmt.Sprintf("p-%s-%s-lit", t, n), Src: "{{ " + recvLit[t] + "." + n + "() }}"},
-						treeFile{Name: fmt.Sprintf("p-%s-%s-var", t, n), Src: "{{ v." + n + "() }}"})
+			// only the templates this history calls (the whole history is known here)
+			used := map[string]bool{}
+			for _, h := range c.Hist {
+				if h.Op == "call" {
+					used[h.T+"/"+h.N] = true
 				}
 			}
+			for _, t := range []string{c.T1, c.T2} {
+				for _, n := range []string{"f", "g", "upper", "len", "abs", "floor", "binary"} {
+					if !used[t+"/"+n] {
+						continue
+					}
+					lit, vr := "{{ "+recvLit[t]+"."+n+"() }}", "{{ v."+n+"() }}"
+					files = append(files, treeFile{Name: fmt.Sprintf("p-%s-%s-lit", t, n), Src: lit},
+						treeFile{Name: fmt.Sprintf("p-%s-%s-var", t, n), Src: vr},
+						// the same call inside a component file and inside a slot body passed to a component
+						treeFile{Name: fmt.Sprintf("components/c-%s-%s-lit", t, n), Src: lit},
+						treeFile{Name: fmt.Sprintf("components/c-%s-%s-var", t, n), Src: vr},
+						treeFile{Name: fmt.Sprintf("pc-%s-%s-lit", t, n), Src: fmt.Sprintf("@component(\"~c-%s-%s-lit\")", t, n)},
+						treeFile{Name: fmt.Sprintf("pc-%s-%s-var", t, n), Src: fmt.Sprintf("@component(\"~c-%s-%s-var\", {v: v})", t, n)},
+						treeFile{Name: fmt.Sprintf("ps-%s-%s-lit", t, n), Src: "@component(\"~slot\")@slot" + lit + "@end@end"},
+						treeFile{Name: fmt.Sprintf("ps-%s-%s-var", t, n), Src: "@component(\"~slot\")@slot" + vr + "@end@end"})
+				}
+			}
+			files = append(files, treeFile{Name: "components/slot", Src: "@slot"})
 			if root != "" {
 				cleanupTree(root)
 			}
@@ -125,12 +144,22 @@ func regFamily(raw json.RawMessage) Result {
 			var out string
 			var err error
 			if o.ViaTpl && tpl != nil {
-				var ferr interface{ Error() error }
-				s, fe := tpl.String(fmt.Sprintf("p-%s-%s-%s", o.T, o.N, form), data)
-				out = s
-				if fe != nil {
-					ferr = fe
-					err = ferr.Error()
+				// in the page itself, inside a component file, inside a slot body: one expectation for all three
+				for _, where := range []string{"pc", "ps", "p"} {
+					s, fe := tpl.String(fmt.Sprintf("%s-%s-%s-%s", where, o.T, o.N, form), data)
+					out, err = s, nil
+					if fe != nil {
+						err = fe.Error()
+					}
+					sub := Result{Status: "ok", Stats: map[string]int{}}
+					judgeRender(&sub, o.Expect, out, err)
+					if sub.Status != "ok" {
+						res.Status, res.Kind = "viol", sub.Kind
+						res.Msg = fmt.Sprintf("step %d: call %s.%s (var=%v) in a loaded template (%s: p = page, pc = component file, ps = slot body): %s",
+							i+1, o.T, o.N, o.OnVar, where, sub.Msg)
+						res.Tags = []string{o.T, "call", where}
+						return res
+					}
 				}
 			} else {
 				src := "{{ " + recvLit[o.T] + "." + o.N + "() }}"
